@@ -111,7 +111,7 @@ var headerRe = regexp.MustCompile(`^func\s*(\(\s*(\w+)?\s*(\*?)\s*(\w+)\s*\))?\s
 var clauseKw = map[string]bool{"property": true, "opts": true, "requires": true, "ensures": true, "modifies": true,
 	"loop": true, "invariant": true, "inline": true, "implements": true, "let": true, "params": true, "decreases": true}
 var topKw = map[string]bool{"spec": true, "ghost": true, "lemma": true, "axiom": true, "func": true, "closure": true,
-	"interface": true, "extern": true, "directive": true}
+	"interface": true, "extern": true, "directive": true, "fnvalue": true}
 
 type rawLine struct {
 	text string
@@ -224,7 +224,7 @@ func loadContractFile(path, pkgPath string, resolveQual func(q string) string, s
 			curDir = &Directive{Kind: fs[1], Args: strings.TrimSpace(strings.TrimPrefix(rest, fs[1])), PkgPath: pkgPath, File: path, Line: l.line}
 			sp.Directives = append(sp.Directives, curDir)
 			cur, curLoop, curLemma = nil, nil, nil
-		case "func", "closure", "interface", "extern":
+		case "func", "closure", "interface", "extern", "fnvalue":
 			c := &Contract{PkgPath: pkgPath, PkgDir: filepath.Dir(path), Kind: kw, Header: l.text, Opts: map[string]bool{}, Loops: map[int]*LoopSpec{}, Inlines: map[string]bool{}, File: path, Line: l.line}
 			switch kw {
 			case "func":
@@ -241,6 +241,14 @@ func loadContractFile(path, pkgPath string, resolveQual func(q string) string, s
 			case "closure":
 				c.Local = strings.ReplaceAll(rest, "#", "$")
 				c.Key = pkgPath + "." + c.Local
+			case "fnvalue":
+				name := rest
+				if k := strings.Index(rest, "("); k >= 0 {
+					name = strings.TrimSpace(rest[:k])
+					c.Params = splitNames(rest[k+1 : strings.LastIndex(rest, ")")])
+				}
+				c.Local = name
+				c.Key = pkgPath + "." + name
 			case "interface":
 				name := rest
 				if k := strings.Index(rest, "("); k >= 0 {
